@@ -1,7 +1,7 @@
 \* generation (C22, thorough): directed families -- as quick, three branches of up to 3 loops
 SPECIFICATION Spec
 CONSTANTS
-  Families = {"branch2","branch3","skip","place","order"}
+  Families = {"branch2","branch3","skip","place","order","pairdecl","pairnest"}
   MaxChain = 3
   MaxChain3 = 3
 INVARIANT TypeOK
